@@ -235,7 +235,7 @@ def coords_stream(tier, rng, n_dims=(1, 2, 3)):
         if not quick:
             pool = list(small_matrices(3))
         yield from block_matrices(rng, 25 if quick else 200)
-        k = 300 if quick else 6000
+        k = 300 if quick else 3000
         for _ in range(k):
             dens = rng.choice([0.34, 0.45, 0.6, 1.0])
             if pool is not None and dens == 1.0:
@@ -248,7 +248,7 @@ def coords_stream(tier, rng, n_dims=(1, 2, 3)):
                     if det_frac(m) != 0:
                         break
             yield aug(m, rng.choice(TRANSLATIONS[3]))
-    for _ in range(200 if quick else 4000):
+    for _ in range(200 if quick else 2000):
         yield random_dyadic(rng.choice(n_dims), rng)
 
 
